@@ -23,6 +23,10 @@ Section Interleave.
   Variable init : inner -> job -> pstate.
   Variable step : inner -> pool -> pstate -> pool * (pstate + result).
 
+  (* what a step returns — the next private state or the result — does not depend on the content of the pools *)
+  Definition pool_content_irrelevant : Prop :=
+    forall i p1 p2 s, snd (step i p1 s) = snd (step i p2 s).
+
   Inductive tstate := Running (s : pstate) | Done (r : result).
 
   Record sys := { sy_pool : pool; sy_threads : list tstate }.
@@ -85,6 +89,7 @@ Section Interleave.
     end.
 End Interleave.
 
+Arguments pool_content_irrelevant {inner pstate pool result} step.
 Arguments Running {pstate result} s.
 Arguments Done {pstate result} r.
 Arguments sy_pool {pstate pool result} s.
